@@ -260,6 +260,27 @@ def delay(ctx):
         ctx.fail('C06.5', f, f.name, 'regenerate_trace_header does not start from gen_trace_header(i)')
 
 
+def _in_fallback_branch(node, stop):
+    """control dependence on the format-code test: the statement lies in the branch of an `if` that is taken only
+    when a value is not one of the literal codes {1, 5}."""
+    p, child = parent(node), node
+    while p is not None and p is not stop:
+        if isinstance(p, ast.If):
+            t, neg = p.test, False
+            while isinstance(t, ast.UnaryOp) and isinstance(t.op, ast.Not):
+                t, neg = t.operand, not neg
+            if isinstance(t, ast.Compare) and len(t.ops) == 1 and isinstance(t.ops[0], (ast.In, ast.NotIn)) and \
+                    isinstance(t.comparators[0], (ast.Tuple, ast.List, ast.Set)):
+                vals = {e.value for e in t.comparators[0].elts if isinstance(e, ast.Constant)}
+                if vals == {1, 5} and len(t.comparators[0].elts) == 2:
+                    member = isinstance(t.ops[0], ast.In) != neg     # branch body taken when value IS in {1,5}
+                    in_body = any(child is x for x in p.body)
+                    if in_body != member:
+                        return True
+        child, p = p, parent(p)
+    return False
+
+
 def verbatim(ctx, text_lo, by_off):
     """C06.6: on the export path the bytes written at offset 0 are self.headerbytes[4096:7696]; the only assignment to
     self.headerbytes outside the constructor and the only element stores into a copy of it are the format-code
@@ -287,9 +308,14 @@ def verbatim(ctx, text_lo, by_off):
                 n += 1
                 facts = fm.facts_at(a) or frozenset()
                 fallback = any(x[0] == 'F' and ('in [1, 5]' in x[1] or 'in (1, 5)' in x[1]) for x in facts) or \
-                    any(x[0] == 'notin' and '[1, 5]' in str(x) for x in facts)
+                    any(x[0] == 'notin' and '[1, 5]' in str(x) for x in facts) or _in_fallback_branch(a, f.node)
                 if is_elem:
                     sl = t.slice
+                    if isinstance(sl, ast.Name):
+                        ds = [x for x in ast.walk(f.node) if isinstance(x, ast.Assign) and len(x.targets) == 1 and U(x.targets[0]) == sl.id]
+                        sl = ds[0].value if len(ds) == 1 else sl
+                    if isinstance(sl, ast.Call) and U(sl.func) == 'slice' and len(sl.args) >= 2:
+                        sl = ast.Slice(lower=sl.args[0], upper=sl.args[1])
                     lo = TB.const_eval(P, f.module, sl.lower) if isinstance(sl, ast.Slice) and sl.lower is not None else None
                     name = by_off.get(lo - text_lo) if lo is not None else None
                     if name == 'Format' and fallback:
